@@ -51,20 +51,24 @@ check('C02', 'store', 'exploration', STORE_TECH,
       '(hence symmetric, live instances only); every referential attribute reads as a linked identifying value or unset; a rejected '
       'call leaves pools, links, attribute reads and the serialized text unchanged. Key attributes of associations and '
       'identifiers are declared under other spellings than the columns in part of the schemas. 30 % of the histories end with a '
-      'relate that names a deleted instance (known finding: it is accepted).', STORE_NOTE, 'DESIGN.md §4 C02, §12.13')
+      'relate that names a deleted instance (known finding: it is accepted). The schema may grow in mid-history (two classes, an '
+      'association and identifiers defined on the populated metamodel).', STORE_NOTE, 'DESIGN.md §4 C02, §12.13, §12.17')
 check('C09', 'store', 'exploration', STORE_TECH,
       'Inside the same histories one client issues select_many/one/any with where_eq, dict filters, lambdas and (reverse_)order_by '
       'in any combination, and navigation chains of length 1-4 from None, an instance, a QuerySet, a list, a generator or a '
       'selection, through association classes and reflexive associations, in nav() and attribute/index syntax, plus '
       'navigate_subtype; results are compared with a relational evaluation by the reference; results held by a client across '
-      'other clients\' mutations must keep their content.', STORE_NOTE, 'DESIGN.md §4 C09')
+      'other clients\' mutations must keep their content. Attribute lists of populated classes are edited and the schema grows '
+      'in mid-history.', STORE_NOTE, 'DESIGN.md §4 C09, §12.17')
 check('C10', 'store', 'exploration', STORE_TECH,
       'Histories of attribute writes, reads, deletes, constructor keywords, where_eq filters and class lookups, each under an '
       'independently drawn spelling; after every step every attribute of every live instance is read under every case pattern '
       '(exhaustive for names of up to four letters) and compared with the single value the reference holds, as is the serialized '
       'text; writes to referential attributes must be rejected without effect; referential constructor keywords are spelled '
       'freely as well. 30 % of the histories end with a keyword spelled exactly like a constructor parameter (kind= / self=; '
-      'known finding).', STORE_NOTE, 'DESIGN.md §4 C10, §12.13')
+      'known finding). The attribute list of a populated class is edited in mid-history (an attribute deleted and another one '
+      'inserted, so that the number stays the same; attributes appended; new classes and an association defined).',
+      STORE_NOTE, 'DESIGN.md §4 C10, §12.13, §12.17')
 check('C11', 'c11', 'exploration',
       'deterministic simulation: two engines share the runs -- seeded API histories with injected rejected calls (store profile, '
       'also starting from loaded populations) and seeded deliveries of populations with duplicate / null / dangling keys as files '
@@ -72,10 +76,11 @@ check('C11', 'c11', 'exploration',
       'Even runs: in every state reached by API histories (under-populated ends, null and duplicate identifiers provoked on '
       'purpose, histories that start from a loaded population) check_association_integrity (all / one association), '
       'check_uniqueness_constraint (all / one class), check_subtype_integrity and is_consistent are compared with nested-loop '
-      'counts written from the statement. Odd runs: a seeded population with duplicate keys (over-populated ends, only reachable '
+      'counts written from the statement; the schema grows in mid-history, after restricted checks have been made. Odd runs: a seeded population with duplicate keys (over-populated ends, only reachable '
       'by loading) is written to the simulated disk in a seeded file order; the same counts are compared on the loaded model, and '
       'xtuml.consistency_check.main, bridgepoint.consistency_check.main and both `python -m` entry points are run in-process on '
-      'the files with random -r/-R/-k subsets: return value and exit status must match the counts. Where the statement admits two '
+      'the files with random -r/-R/-k subsets: return value and exit status (the low eight bits the operating system keeps; some '
+      'populations hold a multiple of 256 violations) must match the counts. Where the statement admits two '
       'readings (an instance repeating under two identifiers; the empty string as null of a string identifier) either is accepted.',
       STORE_NOTE, 'DESIGN.md §4 C11, §12.2')
 check('C16', 'store', 'exploration', STORE_TECH,
@@ -91,7 +96,9 @@ check('C19', 'store', 'exploration', STORE_TECH,
       'core types in lower/upper/capitalised type names and a class with an unknown type; uuid generator on a seeded entropy '
       'seam, integer generator, user-defined IdGenerator subclass and plain iterator; interleaved peek/next/next() calls. Every '
       'attribute of the new instance equals the reference (typed default, then positional, then keyword); every defaulted id equals '
-      'the next value of the reference generator and is never null; peeking never advances.', STORE_NOTE, 'DESIGN.md §4 C19')
+      'the next value of the reference generator and is never null; peeking never advances. Attribute lists are edited and the '
+      'schema grows between creations.', STORE_NOTE + ' The uuid route owns the entropy at the uuid.uuid4 seam: a library that '
+      'drew its entropy elsewhere would have to be given a new seam before this check can judge it.', 'DESIGN.md §4 C19, §12.17')
 
 check('C03', 'delivery', 'exploration',
       'deterministic simulation: seeded delivery plans (reordering, partitioning, routing through string / file object / file / '
@@ -158,7 +165,9 @@ check('C01', 'storedisk', 'exploration',
       'input and load_metamodel in a seeded file order. After an acknowledged checkpoint + restart the rebuilt metamodel must '
       'equal the reference in classes and attribute types, associations, identifiers, instance order and values (six-decimal '
       'reals, unset = null) and link pairs; checkpoint - restart - checkpoint must reproduce the text. A checkpoint hit by a crash '
-      'or I/O error is unacknowledged: its torn file must load or be rejected with ParsingException, and the run goes on in memory.',
+      'or I/O error is unacknowledged: its torn file must load or be rejected with ParsingException, and the run goes on in memory. '
+      'Between checkpoints the attribute list of a populated class may be edited (attribute deleted, another inserted, every live '
+      'instance given a value).',
       STORE_NOTE + ' Persistable domain = states whose referential values resolve (the join of the format reproduces the links); '
       'checkpoints of other states are skipped and counted. The variant without CREATE TABLE statements is not compared. One known '
       'finding (carriage returns through text-mode file routes) is listed in known_findings.json.', 'DESIGN.md §4 C01')
@@ -173,15 +182,15 @@ check('C14', 'modelorder', 'exploration', ORDER_TECH,
       'The component built by build_component (classes with attributes in modelled order and core types, identifiers, '
       'associations with key pairs, multiplicity, conditionality, phrases) is compared between the natural row order and 2-3 '
       'seeded deliveries of the same rows (permuted, partitioned, routed through files, directory trees and zip archives). '
-      'History oracle: a third of the runs also extract a one-edit variant of the model (a user data type retargeted, a class '
-      'moved) in the warm process and with a freshly imported copy of the library (restarted node); both must agree.',
+      'History oracle: a third of the runs also extract a one-edit variant of the model (a user data type retargeted, an '
+      'identifying attribute that other classes refer to retyped, a class moved) in the warm process and with a freshly imported copy of the library (restarted node); both must agree.',
       ORDER_NOTE, 'DESIGN.md §12.7, §12.13')
 check('C15', 'modelorder', 'exploration', ORDER_TECH,
       'Enumerator positions and constant values found through Domain.find_symbol are compared between the natural row order and '
       '2-3 seeded deliveries of the same rows, and every enumerator position is compared with the modelled succession order (R56) '
       'computed from the rows by an independent tokenizer; seeded extra enumerations with scrambled enumerator rows are added. '
-      'Seeded external entities whose bridges return their own constants are invoked and compared with the twin and with '
-      'the constant in each body.',
+      'One or two seeded external entities whose equally named bridges return their own constants (drawn per run) are invoked '
+      'and compared with the twin and with the constant in each body.',
       ORDER_NOTE + ' Invocation semantics (parameter binding, scopes, return values, derived attributes) are NOT decided.',
       'DESIGN.md §12.7')
 check('C20', 'modelorder', 'exploration', ORDER_TECH,
